@@ -2475,6 +2475,9 @@ namespace Clipper2Lib {
 
       node.edge1->curr_x = node.pt.x;
       node.edge2->curr_x = node.pt.x;
+      //nb: crossing an open path isn't an event for closed paths, and
+      //the (rounded) crossing point mustn't trigger joins between them
+      if (IsOpen(*node.edge1) || IsOpen(*node.edge2)) continue;
       CheckJoinLeft(*node.edge2, node.pt, true);
       CheckJoinRight(*node.edge1, node.pt, true);
     }
